@@ -302,16 +302,17 @@ func (li *Listener) Close() error {
 	li.doneOnce.Do(func() {
 		close(li.doneChan)
 	})
-	// the QUIC listener first: closing the socket under it makes its transport shut the
-	// listener down from the read loop, and the two shutdowns wait for each other forever
-	qerr := li.ql.Close()
+	// quic-go takes the transport's mutex and the QUIC listener's close-once in opposite orders
+	// when the listener is closed directly and when the transport shuts it down because its
+	// socket has gone (Close of the socket, or the node's context ending).  Running both at the
+	// same time deadlocks, so the listener is only ever shut down through the transport: close
+	// the socket, wait for the transport (which also releases the socket's address for the next
+	// listener on this service), and only then close the - by now closed - QUIC listener.
 	perr := li.pc.Close()
 	if li.tr != nil {
-		// wait until the transport has noticed and has let go of the socket's address: a new
-		// listener on the same service must not find it still in use
 		_ = li.tr.Close()
 	}
-	if qerr != nil {
+	if qerr := li.ql.Close(); qerr != nil {
 		return qerr
 	}
 
